@@ -175,6 +175,29 @@ theorem load_layout_eq_write_layout (k : Kind) (cfg : Config) (arpa fixed : List
 example : let w := writeLayout (.trie false false) ⟨defaultMultiplierBits, 8, 8, 22⟩ [3, 1, 1, 1] [4, 2, 2, 1] false true 20
     w.pad = 8 ∧ (loadLayout (.trie false false) ⟨defaultMultiplierBits, 8, 8, 22⟩ w.storedCounts).search = w.search := by decide
 
+/-- **written_file_passes_size_check** — `LoadBinary`'s test `file_size < total_map ⇒ "Binary file has size … but the
+headers say it should be at least …"` never fires on a finished file, for every model class, configuration and count
+vector; and the bound is *tight*: a file written without vocabulary strings (`build_binary -v`, `include_vocab = false`)
+has exactly the size `total_map`, so a non-strict comparison would reject every such file (seed C04-9).  The loader's
+`total_map` is `loadLayout.mapped` (header + `Size(stored counts, config)`); `KV.LoaderBin.mapAndVocab` makes the same
+comparison on the byte list. -/
+theorem written_file_passes_size_check (k : Kind) (cfg : Config) (arpa fixed : List Nat) (sawUnk iv : Bool) (sl : Nat)
+    (hlen : fixed.length = arpa.length)
+    (h0 : k.isTrie = true → cnt fixed 0 = cnt arpa 0 + (if sawUnk then 0 else 1)) :
+    let w := writeLayout k cfg arpa fixed sawUnk iv sl
+    let l := loadLayout k cfg w.storedCounts
+    ¬ (w.fileSize < l.mapped) ∧ (iv = false → w.fileSize = l.mapped) ∧ (iv = true → w.fileSize = l.mapped + sl) := by
+  intro w l
+  have h := (load_layout_eq_write_layout k cfg arpa fixed sawUnk iv sl hlen h0).2.2.2
+  have hm : l.mapped = w.strings := h
+  have hf : w.fileSize = w.strings + (if iv then sl else 0) := by simp [w, writeLayout]
+  rw [hm, hf]
+  cases iv <;> simp
+
+example : let w := writeLayout (.probing false) ⟨defaultMultiplierBits, 8, 8, 22⟩ [3, 1] [3, 1] true false 20
+    w.fileSize = (loadLayout (.probing false) ⟨defaultMultiplierBits, 8, 8, 22⟩ w.storedCounts).mapped := by decide
+
+
 /-- **stored_params_read**: whatever configuration the loader starts from, `UpdateConfigFromBinary` on a file that holds the
 bytes `FinishedLoading` wrote succeeds and yields a configuration under which `Size` and every offset of
 `SetupMemory` are the builder's. -/
